@@ -72,6 +72,7 @@ class Engine:
         self.thread_controller = None
         self.quiescences = 0
         self.notify_counts = {}
+        self.diverted = False
         self.transitions = []  # (from, to) from ENTERED_STATE callbacks
         self.samples = []  # (tick, state, paused, terminated, future_done) on change
         self.last_sample = None
@@ -111,16 +112,89 @@ class Engine:
             # the process talks through plumpy's own LoopCommunicator wrapper (subscriber callbacks are scheduled on the loop)
             process_communicator = plumpy.wrap_communicator(self.communicator, self.loop)
         try:
-            self.proc = self.cls(inputs=self.case['program'].get('inputs'), pid=self.opts.get('pid'), loop=self.loop,
-                                 communicator=process_communicator)
+            if self.opts.get('via_bundle'):
+                self.proc = self._restored_process(process_communicator)
+            else:
+                self.proc = self.cls(inputs=self.case['program'].get('inputs'), pid=self.opts.get('pid'), loop=self.loop,
+                                     communicator=process_communicator)
         except Exception as exc:  # noqa: BLE001 - construction faults are judged by C03
             self.construct_error = exc
             return False
         self.attach(self.proc, 'p')
+        if self.opts.get('divert'):
+            self.world.site_hook = self._divert
         self.task = self.loop.create_task(self.proc.step_until_terminated())
         for index in self.pending_t:
             self.loop.call_at(self.schedule[index]['t'], self._fire_timed, index)
         return True
+
+    def _restored_process(self, process_communicator):
+        """The process under control is one that was recreated from a checkpoint (as a launcher's continue task does):
+        the original - built without communicator in a loop of its own, run to its first rest if the option says so - is
+        saved through the medium and abandoned; the copy is loaded with this engine's loop and communicator."""
+        import asyncio
+
+        from . import persist
+        from .loop import SimLoop
+
+        spec = self.opts['via_bundle']
+        # the original lives in a loop of its own, which is 'the' loop while it runs; the engine's loop is the current one
+        # again before the checkpoint is loaded
+        scratch = SimLoop(max_ticks=5000)
+        asyncio.set_event_loop(scratch)
+        try:
+            bundle = self._checkpoint_of_original(scratch, spec, persist)
+        finally:
+            asyncio.set_event_loop(self.loop)
+            scratch.hooks = None
+            scratch.close()
+        context = self.plumpy.LoadSaveContext(loop=self.loop, communicator=process_communicator) \
+            if process_communicator is not None else self.plumpy.LoadSaveContext(loop=self.loop)
+        return bundle.unbundle(context)
+
+    def _checkpoint_of_original(self, scratch, spec, persist):
+        original = self.cls(inputs=self.case['program'].get('inputs'), pid=self.opts.get('pid'), loop=scratch)
+        original._sim_label = 'p'
+        if spec.get('after') == 'rest':
+            task = scratch.create_task(original.step_until_terminated())
+            with scratch.running():
+                while scratch.step_once():
+                    pass
+            self.prior_ticks = scratch.tick
+            if original.has_terminated() or task.done():
+                # nothing left to control: checkpoint a fresh instance right after construction instead
+                self.world.events.clear()
+                self.world.rec('original_terminated', original.state.value)
+                original = self.cls(inputs=self.case['program'].get('inputs'), pid=self.opts.get('pid'), loop=scratch)
+                original._sim_label = 'p'
+        bundle = persist.save(original, spec.get('medium', 'deepcopy'))
+        self.world.rec('restored_from', original.state.value)
+        return bundle
+
+    def _divert(self, proc, site, count):
+        """A lifecycle hook that refuses the state being entered and names another one instead (StateEntryFailed, the
+        mechanism plumpy's own on_finish uses): whatever state it names, the process may only move along the graph."""
+        spec = self.opts['divert']
+        if proc is not self.proc or site != spec['site'] or count != spec['count'] or self.diverted:
+            return
+        self.diverted = True
+        plumpy = self.plumpy
+        states = plumpy.ProcessState
+        target = spec['to']
+        if target == 'finished':
+            state = proc.create_state(states.FINISHED, 'diverted', True)
+        elif target == 'killed':
+            state = proc.create_state(states.KILLED, plumpy.process_comms.MessageBuilder.kill('diverted'))
+        elif target == 'excepted':
+            state = proc.create_state(states.EXCEPTED, programs.ProgramError('diverted'))
+        elif target == 'waiting':
+            state = proc.create_state(states.WAITING, None, 'diverted', None)
+        elif target == 'running':
+            state = proc.create_state(states.RUNNING, proc.run)
+        else:
+            state = proc.create_state(states.CREATED, proc.run)
+        self.world.rec('divert', site, count, target, proc.state.value)
+        raise plumpy.base.state_machine.StateEntryFailed(state)
 
     def _fire_timed(self, index):
         self.fire(index, 'timed')
@@ -302,6 +376,11 @@ class Engine:
         pid = self.proc.pid
         self.communicator.delivery_queue.append({'delay': action.get('delay', 0.0), 'duplicate': bool(action.get('dup')),
                                                  'reorder': bool(action.get('reorder'))})
+        if action.get('raw'):
+            # a hand-written message that carries nothing but the intent (no message text key): same as the call without text
+            if action['act'] == 'bcast':
+                return self.communicator.broadcast_send({}, subject=intent)
+            return self.loop.create_task(self._raw_rpc(pid, {'intent': intent}))
         if action['act'] == 'bcast':
             controller = self.thread_controller
             if intent == 'pause':
@@ -471,6 +550,10 @@ def make_listener(plumpy, engine):
             engine.notified('output', process, [output_port, value, dynamic])
 
         def on_process_finished(self, process, outputs):
+            if getattr(engine, 'opts', {}).get('late_output') and process is engine.proc and 'late' not in process.outputs:
+                # an output emitted when FINISHED has just been entered (the process is not closed yet, out() is legal):
+                # part of "the outputs" that every report has to agree on
+                process.out('late', 'emitted on entering FINISHED')
             engine.notified('finished', process, [outputs])
 
         def on_process_excepted(self, process, reason):
